@@ -105,7 +105,12 @@ def exclTags (ps : PState) (toks : List String) : List String × Bool :=
     -- refused by handleFuncOpts (`reuse.len() != expShape.TotalSize()`)
     let f16 := (match reuse with | some r => Excl_reshapeLongWindow r | none => false) ||
       (match incrD with | some r => Excl_reshapeLongWindow r | none => false)
-    ((if op == "div" && (dt == some "f32" || dt == some "f64") then ["F30"] else []) ++
+    -- F122: the kernels tell scalars from vectors by the length of the storage window: a one-element tensor that sits
+    -- on a longer window (`a[0:2:2]`) next to a one-element tensor on a window of one cell is taken for the vector
+    let oneOnLong (d : Dense) : Bool := totalSize d.ap.shape == 1 && d.win.len != 1 && !d.ap.shape.isEmpty
+    let f122 := (tens ++ (match reuse with | some r => [r] | none => []) ++ (match incrDst with | some r => [r] | none => [])).any oneOnLong &&
+      tens.all (fun d => totalSize d.ap.shape == 1)
+    ((if op == "div" && (dt == some "f32" || dt == some "f64") then ["F30"] else []) ++ (if f122 then ["F122"] else []) ++
      (if f16 then ["F16"] else []) ++
      (if f31 then ["F31"] else []) ++ (if f10 then ["F10"] else []) ++ (if f35 then ["F35"] else []), true)
   | "un" :: _ :: _ :: rest =>
